@@ -33,7 +33,7 @@ func init() {
 		ID:    "C14",
 		Level: "exploration",
 		Rule: "seeded cases = (transport-wide default writers) x (per-operation writers or none or PassThroughAuth) x (Authorization header preset by the parameter writer: Bearer / Basic / foreign scheme / none) x " +
-			"(access_token in query, one in 4 of those with an empty value beside a urlencoded form or no form) x (access_token in urlencoded or multipart form body) x server options (realm mode, context-aware or plain constructors, *http.Request or *ScopedAuthRequest argument, " +
+			"(access_token in query, one in 4 of those with an empty value beside a form or none) x (access_token in urlencoded or multipart form body) x server options (realm mode, context-aware or plain constructors, *http.Request or *ScopedAuthRequest argument, " +
 			"required scopes, server-side spelling of key name and location, callback outcome principal / error / both / neither). Writers are client.BasicAuth / APIKeyAuth(header|query) / BearerToken, optionally wrapped in client.Compose. " +
 			"The request is built by client.Runtime.CreateHttpRequest, serialised with Request.Write and re-parsed with http.ReadRequest; a smaller stream of cases (quick: 150 per worker, thorough: 10000 per worker) is sent by Runtime.Submit to a loopback httptest.Server instead, " +
 			"where every request the server receives is judged, a second request for one Submit is a violation, and a Submit that fails (or never reaches the handler) is charged to the case when a plain control request is delivered right afterwards and the case fails the same way again; " +
@@ -1515,9 +1515,9 @@ func genCase(r *rand.Rand) *Case {
 		c.JSONBody = true
 	}
 	// one query placement in 4 names the parameter with an empty value ("?access_token="): no credential in the
-	// query, so a token in a urlencoded form body, or none at all, is what the authenticator owes. (With a multipart
-	// body net/http's FormValue lists the empty query value first; that combination is left out, see DESIGN 9.5.)
-	if c.HasQueryTok && c.FormKind != "multipart" && r.Intn(4) == 0 {
+	// query, so a token in a form body (urlencoded or multipart), or none at all, is what the authenticator owes.
+	// (With a multipart body net/http's FormValue lists the empty query value first: repaired defect, see DESIGN 9.5.)
+	if c.HasQueryTok && r.Intn(4) == 0 {
 		c.QueryTok = ""
 	}
 	switch {
